@@ -495,6 +495,8 @@ inductive Err
   | nameError
   | attributeError
   | typeError
+  /-- the rendered source does not compile -/
+  | syntaxError
   /-- `xsdata.exceptions.SerializerError`, raised by `render` itself -/
   | serializerError
   /-- outside what this model predicts -/
@@ -505,6 +507,7 @@ def Err.name : Err → Str
   | .nameError => cs!"NameError"
   | .attributeError => cs!"AttributeError"
   | .typeError => cs!"TypeError"
+  | .syntaxError => cs!"SyntaxError"
   | .serializerError => cs!"SerializerError"
   | .unmodelled => cs!"unmodelled"
 
@@ -919,6 +922,31 @@ def riskKw : List (Str × PyExpr) → Bool
   | (_, e) :: r => e.syntaxRisk || riskKw r
 end
 
+mutual
+/-- how many brackets are open at once, at most, while the expression is read
+(CPython's tokenizer gives up beyond `Tables.parserMaxNesting`) -/
+def PyExpr.depth : PyExpr → Nat
+  | .lit _ _ _ => 0
+  | .enumRef _ _ => 0
+  | .floatCall _ _ => 1
+  | .qnameCall _ => 1
+  | .opaqueCall _ _ _ _ => 1
+  | .arr .frozenset [] => 1
+  | .arr .frozenset (x :: xs) => 2 + depthL (x :: xs)   -- `frozenset({ … })`
+  | .arr _ xs => 1 + depthL xs
+  | .dict kvs => 1 + depthKV kvs
+  | .call _ kws => 1 + depthKw kws
+def depthL : List PyExpr → Nat
+  | [] => 0
+  | x :: xs => max x.depth (depthL xs)
+def depthKV : List (PyExpr × PyExpr) → Nat
+  | [] => 0
+  | (k, v) :: r => max (max k.depth v.depth) (depthKV r)
+def depthKw : List (Str × PyExpr) → Nat
+  | [] => 0
+  | (_, e) :: r => max e.depth (depthKw r)
+end
+
 /-! ## `PycodeSerializer.render(obj, var_name)` and what running it gives -/
 
 /-- `build_imports` refuses a set of types in which one outermost name belongs
@@ -942,8 +970,12 @@ def sourceE (W : World) (v : Val) (var : Str) : Except Err Str :=
 /-- the namespace the expression is evaluated in -/
 def importsEnv (W : World) (v : Val) : Env := imports (render W v).types
 
-/-- `exec(source, {})` then `ns[var]` -/
-def run (W : World) (v : Val) : Except Err Val := eval W (importsEnv W v) (render W v)
+/-- the rendered expression does not nest brackets deeper than the parser allows -/
+def nestingOK (W : World) (v : Val) : Bool := (render W v).depth ≤ Tables.parserMaxNesting
+
+/-- `exec(source, {})` then `ns[var]`: the source is compiled first -/
+def run (W : World) (v : Val) : Except Err Val :=
+  if nestingOK W v then eval W (importsEnv W v) (render W v) else .error .syntaxError
 
 def outcome (W : World) (v : Val) : Str :=
   if !renders W v then cs!"refused:SerializerError" else
